@@ -240,6 +240,20 @@ reg(
     "property-based testing (Hypothesis, one stream per algorithm) with call-counting oracles on generated problems",
 )
 
+reg(
+    "C20",
+    "A recipe table instantiates 57 of the 62 classes of DisciplineFactory and MDAFactory (5 need external tools and are listed in "
+    "the evidence), MDO/DOE scenarios, 18 MDOFunction kinds incl. ProblemFunction, Design/ParameterSpaces and "
+    "OptimizationProblems; Hypothesis draws grammar type, cache type (none/Simple/MemoryFull/HDF5), life moment (fresh, after "
+    "executions, linearisations, a failed run, a scenario run), channel (pickle protocols, to_pickle/from_pickle, a forked worker "
+    "that executes and returns the object) and inputs. The restored object must have an equal snapshot (grammars, defaults, cache "
+    "content, local data, Jacobian, counters, settings, recursively), give bit-identical outputs/Jacobians/results/databases with "
+    "identical counter increments, stay attached to its HDF5 file, and be independent of the original under 1-4 mutations.",
+    "History-dependent objects (MDAs, warm-started chains, adapters) are compared on exposed state only. SciPy frozen "
+    "distributions' samples are not compared (private RandomState travels). A 300 s per-case watchdog yields 'inconclusive'.",
+    "round-trip / differential property testing (Hypothesis over a class recipe table) of pickled vs original objects",
+)
+
 NOT_YET: dict[str, str] = {}
 
 
